@@ -564,7 +564,8 @@ Definition tformalize (sc : scope) (st : state) (r : nat) (ck : kind) (cid : N) 
 
 (* a symbolic value (given by reference) handed to a field: what apply + custom_apply do with it when nothing has to be
    bound or completed in place.
-   - an object: the field checks its class (there is no custom_apply); it is stored as it is;
+   - an object: the field checks its class (there is no custom_apply) and, when it is an Object spec and partial values are
+     not allowed, that the object is fully bound; it is stored as it is;
    - an untyped dict / list: stored as it is when the field routes it to Any; refused with the error of apply when the field
      takes no dict / list at all; a field that routes it to a Dict / List spec binds that spec to the value and completes it in
      place (not modelled);
@@ -572,6 +573,20 @@ Definition tformalize (sc : scope) (st : state) (r : nat) (ck : kind) (cid : N) 
      Any) and its allow_partial flag is the effective one; refused (ValueError) when the field's spec is not compatible with
      it (Typing.compat: is_compatible, with the quirk flags of the typing layer); a compatible value with another spec keeps
      that spec, and one with another allow_partial flag is re-flagged and completed (not modelled). *)
+(* Object.sym_partial: a required field is unset somewhere below -- MISSING_VALUE counts as a member of a dict / object that
+   carries a schema (not in untyped dicts, not as a placeholder in a list) *)
+Fixpoint partial_node (n : node) : bool :=
+  match n with
+  | Leaf _ => false
+  | Node _ k _ _ fl its =>
+      let typed := match k, spec_at ev (f_spec fl) with
+                   | KList, _ => false
+                   | _, Some (Typing.SDict (Some _) _) => true
+                   | _, _ => false
+                   end in
+      (fix go (l : list (key * node)) : bool :=
+         match l with [] => false | (_, c) :: r => (typed && SymCoreDefs.is_missing c) || partial_node c || go r end) its
+  end.
 Inductive rdec : Type := RDAccept | RDErr (e : err) | RDNA.
 Definition ref_decide (sc : scope) (cfl : flags) (f : spec) (v : node) : rdec :=
   let p := accepts_partial sc cfl in
@@ -580,7 +595,13 @@ Definition ref_decide (sc : scope) (cfl : flags) (f : spec) (v : node) : rdec :=
   | Node _ (KObj c) _ _ _ _ =>
       if Typing.frozen (Typing.mods_of f) then RDNA else
       match Typing.apply p f (obj_pv c) with
-      | Typing.Ok w => if Typing.pv_eqb w (obj_pv c) then RDAccept else RDNA
+      | Typing.Ok w =>
+          if Typing.pv_eqb w (obj_pv c) then
+            (* pg.typing.Object._apply: an object that is not fully bound is refused unless partial values are allowed *)
+            if negb p && partial_node v then
+              match f with Typing.SObj _ _ => RDErr EValue | Typing.SUnion _ _ => RDNA | _ => RDAccept end
+            else RDAccept
+          else RDNA
       | Typing.Err e => RDErr (t_err e)
       end
   | Node _ k _ _ fl _ =>
@@ -1085,13 +1106,15 @@ Definition container_at (st : state) (tp : pos) (path : list key) : option node 
       end
   | None => None
   end.
-(* a value given by reference that has typed containers inside: if it has to be copied on the way (it has a parent already)
-   the copy is constructed under the scope *)
-Definition ref_typed (st : state) (x : rtv) : bool :=
+(* a value given by reference that has typed containers inside and has to be copied on the way (it has a parent already, or
+   holds the target): the copy is constructed under the scope *)
+Definition ref_typed (st : state) (troot : nat) (x : rtv) : bool :=
   match (match r_rv x with RIns v => v | v => v end) with
   | RNodeId i =>
       match locate st i with
-      | Some p => match get_at st p with Some n => any_typed n | None => false end
+      | Some p =>
+          (match snd p with [] => false | _ => true end || Nat.eqb (fst p) troot) &&
+          match get_at st p with Some n => any_typed n | None => false end
       | None => false
       end
   | _ => false
@@ -1106,7 +1129,7 @@ Definition field_at (c : node) (k : option key) : option spec :=
   end.
 Definition flags_of (n : node) : flags := match n with Node _ _ _ _ fl _ => fl | Leaf _ => default_flags end.
 (* a value given by reference, for a container that checks its members: one of the cases [ref_decide] covers *)
-Definition ref_ok (sc : scope) (st : state) (c : node) (k : option key) (x : rtv) : bool :=
+Definition ref_ok (sc : scope) (st : state) (troot : nat) (c : node) (k : option key) (x : rtv) : bool :=
   negb (r_ins x) &&
   match r_rv x with
   | RNodeId i =>
@@ -1114,7 +1137,9 @@ Definition ref_ok (sc : scope) (st : state) (c : node) (k : option key) (x : rtv
       | Some vpos =>
           match get_at st vpos with
           | Some v =>
-              negb (unfilled v) &&
+              (* a value that has a parent, or holds the target, is copied on the way: the copy of an object that is not
+                 partial but has an unfilled attribute is refused by its class *)
+              negb (unfilled v && (match snd vpos with [] => false | _ => true end || Nat.eqb (fst vpos) troot)) &&
               match field_at c k with
               | None => true
               | Some f => match ref_decide2 sc (flags_of c) f v with RDNA => false | _ => true end
@@ -1125,8 +1150,19 @@ Definition ref_ok (sc : scope) (st : state) (c : node) (k : option key) (x : rtv
       end
   | _ => false
   end.
-Definition value_ok2 (sc : scope) (st : state) (c : node) (k : option key) (x : rtv) : bool :=
-  match r_pv x with Some _ => value_ok sc x | None => ref_ok sc st c k x end.
+Definition value_ok2 (sc : scope) (st : state) (troot : nat) (c : node) (k : option key) (x : rtv) : bool :=
+  match r_pv x with
+  | Some v =>
+      if Typing.is_missing v &&
+         (scope_restrictive sc || match scope_partial sc with Some _ => true | None => false end) then
+        (* MISSING_VALUE stands for the default of the field: fine when that holds no dict / list *)
+        match field_at c k with
+        | Some f => negb (has_container (Typing.dflt (Typing.mods_of f)))
+        | None => false
+        end
+      else value_ok sc x
+  | None => ref_ok sc st troot c k x
+  end.
 Definition op_keyed {A} (o : op A) : list (option key * A) :=
   match o with
   | DSet _ k v | DSetDefault k v | OSet k v => [(Some k, v)]
@@ -1136,14 +1172,14 @@ Definition op_keyed {A} (o : op A) : list (option key * A) :=
 
 Definition guard (sc : scope) (st : state) (ps : pos) (tn : node) (o : op rtv) : bool :=
   negb ((scope_restrictive sc || match scope_partial sc with Some _ => true | None => false end) &&
-        existsb (ref_typed st) (op_values o)) &&
+        existsb (ref_typed st (fst ps)) (op_values o)) &&
   (* removing a declared key stores the default of its field, like assigning MISSING_VALUE *)
   negb ((scope_restrictive sc || match scope_partial sc with Some _ => true | None => false end) && checks_members tn &&
         match o with DDel _ _ | DPop _ _ | DClear => true | _ => false end) &&
   match o with
   | Rebind pvs =>
       forallb (fun pv => match container_at st ps (fst pv) with
-                         | Some c => negb (checks_members c) || value_ok2 sc st c (Some (last (fst pv) (KI 0))) (snd pv)
+                         | Some c => negb (checks_members c) || value_ok2 sc st (fst ps) c (Some (last (fst pv) (KI 0))) (snd pv)
                          | None => true
                          end) pvs
   | _ =>
@@ -1152,7 +1188,7 @@ Definition guard (sc : scope) (st : state) (ps : pos) (tn : node) (o : op rtv) :
                 | LAdd _, Node i k pa pt fl its => Node i k pa pt (mkFlags (f_sealed fl) (f_aw fl) false (f_spec fl)) its
                 | _, _ => tn
                 end in
-      (negb (checks_members tn) || forallb (fun kx => value_ok2 sc st wn (fst kx) (snd kx)) (op_keyed o)) &&
+      (negb (checks_members tn) || forallb (fun kx => value_ok2 sc st (fst ps) wn (fst kx) (snd kx)) (op_keyed o)) &&
       (* the copy of a typed list that holds placeholders of removed elements puts them back after validating the rest *)
       match o with
       | LCopy | LAdd _ => negb (checks_members tn && existsb (fun kc => SymCoreDefs.is_missing (snd kc)) (nitems tn))
